@@ -177,6 +177,14 @@ func Eq(a, b *Term) *Term {
 	if a == b {
 		return TBool(true)
 	}
+	if a.Sort == SStr {
+		if r := replaceAllIdentity(a, b); r != nil {
+			return r
+		}
+		if r := replaceAllIdentity(b, a); r != nil {
+			return r
+		}
+	}
 	if a.Sort == SBV && (isI2B(a) || isI2B(b)) {
 		if ia, ok := intSide(a); ok {
 			if ib, ok := intSide(b); ok {
@@ -186,6 +194,21 @@ func Eq(a, b *Term) *Term {
 	}
 	return app(SBool, 0, "=", a, b)
 }
+
+// replaceAllIdentity: replace_all(x, p, r) = x, for constants p != r with p not empty, holds
+// exactly when x has no occurrence of p (an occurrence changes the length, or the bytes at the
+// first occurrence): the solvers answer the contains form at once and the replace_all form
+// often not at all.
+func replaceAllIdentity(a, b *Term) *Term {
+	if a.Op != "str.replace_all" || !a.Args[1].Const || !a.Args[2].Const || a.Args[1].S == "" || a.Args[1].S == a.Args[2].S {
+		return nil
+	}
+	if a.Args[0] != b && a.Args[0].String() != b.String() {
+		return nil
+	}
+	return Not(StrContains(a.Args[0], a.Args[1]))
+}
+
 func Ite(c, a, b *Term) *Term {
 	if c.Const {
 		if c.B {
